@@ -61,9 +61,11 @@ fn gen_str(rng: &mut Rng, max: usize) -> Vec<u8> {
     match rng.below(10) {
         0 => {
             // long string around a VarInt group boundary (127/128, 16383/16384) or the protocol limit
-            let n = *rng.pick(&[127usize, 128, 129, 255, 256, 16383, 16384, 32767, 40000]);
+            // … and beyond 16 bits: a protocol string may hold 32767 UTF-16 units = up to 98301 UTF-8 bytes
+            let n = *rng.pick(&[127usize, 128, 129, 255, 256, 16383, 16384, 32767, 40000, 65535, 65536, 65537, 70000, 98301]);
             let n = n.min(max);
-            let s: String = (0..n).map(|k| if k % 7 == 3 { 'é' } else { 'a' }).collect();
+            let three = n > 60000;
+            let s: String = (0..n).map(|k| if three { '€' } else if k % 7 == 3 { 'é' } else { 'a' }).collect();
             let mut b = s.into_bytes();
             b.truncate(n);
             while std::str::from_utf8(&b).is_err() { b.pop(); }
@@ -95,7 +97,7 @@ fn boundary_i(rng: &mut Rng, lo: i128, hi: i128) -> i128 {
 fn gen_val(rng: &mut Rng, t: Ty) -> V {
     match t {
         Ty::VarInt => V::I(boundary_i(rng, i128::from(i32::MIN), i128::from(i32::MAX))),
-        Ty::Str => V::B(gen_str(rng, 40000)),
+        Ty::Str => V::B(gen_str(rng, 98301)),
         Ty::Text => {
             let mut b = gen_str(rng, 40000);
             if b.first() == Some(&b'{') { b[0] = b'['; }
@@ -162,6 +164,9 @@ fn dec_case(pk: &Pk, bytes: &[u8], expect: Option<(&[V], usize)>, class: &str) -
         (Some((vals, trailing)), Ok((got, rest))) =>
             if got.as_slice() == vals && *rest == trailing { None } else { Some(format!("round trip lost data: sent {} got {}", vals_tok(pk, vals), observed)) },
         (Some((vals, _)), Err(e)) => Some(format!("round trip failed with {e} for {}", vals_tok(pk, vals))),
+        // hand-made wire images that are not a legal encoding must be refused, never mapped to some value
+        (None, Ok(_)) if class == "dec-bad-enum" => Some(format!("an ordinal outside the enumeration was accepted: {observed}")),
+        (None, Ok(_)) if class == "dec-bad-utf8" => Some(format!("a string that is not valid UTF-8 was accepted: {observed}")),
         (None, _) => None,
     };
     Case { request: format!("c09.dec {} {}", pk.name, hex(bytes)), observed, oracle, class: format!("{class}:{}", pk.name) }
